@@ -189,6 +189,23 @@ class ProxyRecordWriter(ProxyWriter):
         self.__init__(n_files, **kwargs)
 
 
+def _fileformat_from_path(path) -> Optional[str]:
+    """
+    Return "fasta" or "fastq" as determined by the file name extension
+    (ignoring a compression suffix) or None if it is not recognized
+    """
+    name = str(path).lower()
+    for ext in (".gz", ".bz2", ".xz", ".zst"):
+        if name.endswith(ext):
+            name = name[: -len(ext)]
+            break
+    if name.endswith((".fasta", ".fa", ".fna", ".csfasta", ".csfa")):
+        return "fasta"
+    if name.endswith((".fastq", ".fq")):
+        return "fastq"
+    return None
+
+
 class OutputFiles:
     def __init__(
         self,
@@ -244,6 +261,12 @@ class OutputFiles:
             paths = ("-",)
         for path in paths:
             assert path is not None
+        if "fileformat" not in kwargs:
+            # The writer gets an already opened file (or a memory buffer when
+            # running on multiple cores), so it cannot see the file name
+            fileformat = _fileformat_from_path(paths[0])
+            if fileformat is not None:
+                kwargs["fileformat"] = fileformat
         binary_files = []
         for path in paths:
             binary_file = self._file_opener.xopen(path, "wb")
